@@ -64,7 +64,7 @@ var RuneClasses = map[string]RuneClass{
 	`[:word:]`:   {runeRange{'0', '9'}, runeRange{'A', 'Z'}, runeList{'_'}, runeRange{'a', 'z'}},
 	`[:ascii:]`:  {runeRange{0x00, 0x7F}},
 
-	/* TODO: Unicode Classes */
+	/* TODO: Unicode Classes (only the ASCII members of each category are listed) */
 
 	// General - Letters
 	`Letter`: {runeRange{'A', 'Z'}, runeRange{'a', 'z'}},
@@ -83,35 +83,35 @@ var RuneClasses = map[string]RuneClass{
 	`Me`:   {},
 
 	// Numbers - Marks
-	`Number`: {},
-	`N`:      {},
-	`Nd`:     {},
+	`Number`: {runeRange{'0', '9'}},
+	`N`:      {runeRange{'0', '9'}},
+	`Nd`:     {runeRange{'0', '9'}},
 	`Nl`:     {},
 	`No`:     {},
 
 	// General - Punctuations
-	`Punctuation`: {},
-	`P`:           {},
-	`Pc`:          {},
-	`Pd`:          {},
-	`Ps`:          {},
-	`Pe`:          {},
+	`Punctuation`: {runeRange{'!', '#'}, runeRange{'%', '*'}, runeRange{',', '/'}, runeRange{':', ';'}, runeRange{'?', '@'}, runeRange{'[', ']'}, runeList{'_', '{', '}'}},
+	`P`:           {runeRange{'!', '#'}, runeRange{'%', '*'}, runeRange{',', '/'}, runeRange{':', ';'}, runeRange{'?', '@'}, runeRange{'[', ']'}, runeList{'_', '{', '}'}},
+	`Pc`:          {runeList{'_'}},
+	`Pd`:          {runeList{'-'}},
+	`Ps`:          {runeList{'(', '[', '{'}},
+	`Pe`:          {runeList{')', ']', '}'}},
 	`Pi`:          {},
 	`Pf`:          {},
-	`Po`:          {},
+	`Po`:          {runeRange{'!', '#'}, runeRange{'%', '\''}, runeList{'*', ','}, runeRange{'.', '/'}, runeRange{':', ';'}, runeRange{'?', '@'}, runeList{'\\'}},
 
 	// General - Symbols
-	`Symbol`: {},
-	`S`:      {},
-	`Sm`:     {},
-	`Sc`:     {},
-	`Sk`:     {},
+	`Symbol`: {runeList{'$', '+'}, runeRange{'<', '>'}, runeList{'^', '`', '|', '~'}},
+	`S`:      {runeList{'$', '+'}, runeRange{'<', '>'}, runeList{'^', '`', '|', '~'}},
+	`Sm`:     {runeList{'+'}, runeRange{'<', '>'}, runeList{'|', '~'}},
+	`Sc`:     {runeList{'$'}},
+	`Sk`:     {runeList{'^', '`'}},
 	`So`:     {},
 
 	// General - Separator
-	`Separator`: {},
-	`Z`:         {},
-	`Zs`:        {},
+	`Separator`: {runeList{' '}},
+	`Z`:         {runeList{' '}},
+	`Zs`:        {runeList{' '}},
 	`Zl`:        {},
 	`Zp`:        {},
 
